@@ -122,7 +122,7 @@ let rec to_expr = function
   | L [A "Py"; p] -> Py (to_pyexpr p)
   | L [A "Apply"; a; b; al] -> Apply (to_expr a, to_expr b, to_bool al)
   | L [A "Where"; e; p] -> Where (to_expr e, to_expr p)
-  | L [A "Let"; x; e; b] -> Let (to_nat x, to_expr e, to_expr b)
+  | L [A "Let"; x; sh; e; b] -> Let (to_nat x, to_bool sh, to_expr e, to_expr b)
   | L [A "Class"; c; ms] ->
       Class (to_nat c, to_list (function
         | L [nm; isf; e] -> ((to_opt to_nat nm, to_bool isf), to_expr e)
@@ -241,7 +241,7 @@ let spans_cmd = function
 (* flags of every node, preorder *)
 let rec children = function
   | Seq es | Choice es | Skip es | Longest es -> es
-  | Discard (a, b, _) | Apply (a, b, _) | Where (a, b) | Sep (a, b, _, _, _, _) | Let (_, a, b) -> [a; b]
+  | Discard (a, b, _) | Apply (a, b, _) | Where (a, b) | Sep (a, b, _, _, _, _) | Let (_, _, a, b) -> [a; b]
   | Opt e | Expect e | ExpectNot e | Rep (e, _, _) -> [e]
   | Class (_, ms) -> List.map snd ms
   | OpTable (pre, opd, post, inf) ->
